@@ -15,25 +15,9 @@ Proof. induction l; simpl; intros; constructor; auto. Qed.
 
 Definition conv_ok (S : schema) : Prop := convert_lossy S = [].
 
-Lemma conv_ok_parts : forall S, conv_ok S ->
-  (forall t, In t (s_types S) -> td_kind t = KInterface -> td_implements t = [])
-  /\ (forall d, In d (s_directives S) -> dd_repeatable d = false)
-  /\ (forall iv, In iv (all_input_values S) -> sp_dir #"deprecated" (iv_dirs iv) = None)
-  /\ (forall t, In t (s_types S) -> sp_dir #"specifiedBy" (td_dirs t) = None)
-  /\ (forall t, In t (s_types S) -> one_of (td_dirs t) = false).
+Lemma conv_ok_parts : forall S, conv_ok S -> forall t, In t (s_types S) -> one_of (td_dirs t) = false.
 Proof.
-  intros S C. unfold conv_ok, convert_lossy in C.
-  apply app_nil_both in C. destruct C as [C1 C]. apply app_nil_both in C. destruct C as [C2 C].
-  apply app_nil_both in C. destruct C as [C3 C]. apply app_nil_both in C. destruct C as [C4 C5].
-  apply if_nil in C1. apply if_nil in C2. apply if_nil in C3. apply if_nil in C4. apply if_nil in C5.
-  split. { intros t I K. pose proof (existsb_false_In _ _ _ C1 I) as G. cbv beta in G.
-           unfold is_kind in G. rewrite K in G. cbn in G. destruct (td_implements t); auto. discriminate. }
-  split. { intros d I. apply (existsb_false_In _ _ _ C2 I). }
-  split. { intros iv I. pose proof (existsb_false_In _ _ _ C3 I) as G. cbv beta in G.
-           destruct (sp_dir #"deprecated" (iv_dirs iv)); auto. discriminate. }
-  split. { intros t I. pose proof (existsb_false_In _ _ _ C4 I) as G. cbv beta in G.
-           destruct (sp_dir #"specifiedBy" (td_dirs t)); auto. discriminate. }
-  intros t I. apply (existsb_false_In _ _ _ C5 I).
+  intros S C t I. unfold conv_ok, convert_lossy in C. apply if_nil in C. apply (existsb_false_In _ _ _ C I).
 Qed.
 
 (* plain reasons can be quoted again *)
@@ -56,6 +40,11 @@ Lemma dep_of_deprecated_dir : forall raw blk,
   = match str_sem raw blk with Some s => Dep (Some s) | None => DepBad end.
 Proof. reflexivity. Qed.
 
+Lemma specified_of_dir : forall raw blk,
+  specified_of [{| d_name := #"specifiedBy"; d_args := [(#"url", VStr raw blk)] |}]
+  = match str_sem raw blk with Some s => Some (Some s) | None => None end.
+Proof. reflexivity. Qed.
+
 Section Round.
   Variable S : schema.
   Hypothesis WF : wf_schema S = true.
@@ -70,21 +59,22 @@ Section Round.
     import_type (typeref IDX ty) = COk ty.
   Proof.
     induction ty; intros [t F]; cbn [named_of] in F.
-    - rewrite (typeref_named S GOK _ _ F). destruct (td_kind t); reflexivity.
+    - rewrite (typeref_named S _ _ F). destruct (td_kind t); reflexivity.
     - cbn [typeref import_type]. rewrite IHty; eauto.
     - cbn [typeref import_type]. rewrite IHty; eauto.
   Qed.
 
-  Definition strip_iv (iv : inputvalue_def) : inputvalue_def :=
-    {| iv_name := iv_name iv; iv_type := iv_type iv; iv_default := iv_default iv; iv_dirs := [] |}.
+  Definition conv_iv (iv : inputvalue_def) : inputvalue_def :=
+    {| iv_name := iv_name iv; iv_type := iv_type iv; iv_default := iv_default iv;
+       iv_dirs := deprecated_dirs (fst (deprecation DDS (iv_dirs iv))) (snd (deprecation DDS (iv_dirs iv))) |}.
 
-  Lemma import_input_ok : forall iv, iv_good S iv -> import_input (gen_input IDX DDS iv) = COk (strip_iv iv).
+  Lemma import_input_ok : forall iv, iv_good S iv -> import_input (gen_input IDX DDS iv) = COk (conv_iv iv).
   Proof.
-    intros iv [R [V D]]. unfold import_input, gen_input. cbn [ii_type ii_default ii_name].
+    intros iv [R [V D]]. unfold import_input, gen_input. cbn [ii_type ii_default ii_name ii_deprecated ii_reason].
     rewrite import_type_ok; auto. cbn [cbind]. unfold import_default.
     destruct (iv_default iv) as [v|] eqn:E; cbn [option_map cbind].
-    - rewrite parse_print; auto. unfold strip_iv. rewrite E. reflexivity.
-    - unfold strip_iv. rewrite E. reflexivity.
+    - rewrite parse_print; auto. unfold conv_iv. rewrite E. reflexivity.
+    - unfold conv_iv. rewrite E. reflexivity.
   Qed.
 
   Lemma cmap_map_ok : forall {A B C} (f : B -> cres C) (h : A -> B) (g : A -> C) l,
@@ -94,7 +84,7 @@ Section Round.
   Qed.
 
   Lemma import_inputs_ok : forall ivs, (forall iv, In iv ivs -> iv_good S iv) ->
-    cmap import_input (map (gen_input IDX DDS) ivs) = COk (map strip_iv ivs).
+    cmap import_input (map (gen_input IDX DDS) ivs) = COk (map conv_iv ivs).
   Proof. intros. apply cmap_map_ok. intros. apply import_input_ok. auto. Qed.
 
   (* --- deprecation through both directions --- *)
@@ -105,11 +95,12 @@ Section Round.
   Lemma dep_round : forall ds, dirs_good ds ->
     dep_eqb (dep_of (deprecated_dirs (fst (deprecation DDS ds)) (snd (deprecation DDS ds)))) (dep_of ds) = true.
   Proof.
-    intros ds [Wf [Sp Nn]]. unfold deprecation, dirs_wf, reason_of in *. rewrite find_dir_sp.
+    intros ds [Wf Sp]. unfold deprecation, dirs_wf, reason_of in *. rewrite find_dir_sp.
     unfold dep_of at 2.
     destruct (sp_dir #"deprecated" ds) as [d|]; [|reflexivity]. rewrite find_arg_sp.
     destruct (sp_arg #"reason" d) as [v|].
-    - destruct v; try discriminate; try congruence.
+    - destruct v; try discriminate.
+      2:{ cbn [fst snd]. rewrite (default_reason_base S GOK). reflexivity. }
       cbn [str_special] in Sp. cbn [value_content fst snd deprecated_dirs deprecated_directive].
       assert (Orig : str_sem raw block = Some raw).
       { unfold str_sem. destruct block; auto. rewrite Wf, unescape_id; auto. }
@@ -123,7 +114,7 @@ Section Round.
 
   (* --- fields --- *)
   Definition conv_f (f : field_def) : field_def :=
-    {| fd_name := fd_name f; fd_args := map strip_iv (fd_args f); fd_type := fd_type f;
+    {| fd_name := fd_name f; fd_args := map conv_iv (fd_args f); fd_type := fd_type f;
        fd_dirs := deprecated_dirs (fst (deprecation DDS (fd_dirs f))) (snd (deprecation DDS (fd_dirs f))) |}.
 
   Lemma import_field_ok : forall f,
@@ -135,21 +126,21 @@ Section Round.
     rewrite import_type_ok; auto. cbn [cbind]. rewrite import_inputs_ok; auto.
   Qed.
 
-  Lemma iv_equiv_strip : forall iv, sp_dir #"deprecated" (iv_dirs iv) = None -> iv_equiv_b (strip_iv iv) iv = true.
+  Lemma iv_equiv_conv : forall iv, dirs_good (iv_dirs iv) -> iv_equiv_b (conv_iv iv) iv = true.
   Proof.
-    intros iv H. unfold iv_equiv_b, strip_iv. cbn [iv_type iv_default iv_dirs].
+    intros iv H. unfold iv_equiv_b, conv_iv. cbn [iv_type iv_default iv_dirs].
     rewrite ty_eqb_refl. replace (opt_value_eqb (iv_default iv) (iv_default iv)) with true.
     2:{ symmetry. apply opt_value_eqb_eq. auto. }
-    unfold dep_of. rewrite H. reflexivity.
+    rewrite dep_round; auto.
   Qed.
 
-  Lemma ivs_equiv_strip : forall ivs, NoDup (map iv_name ivs) ->
-    (forall iv, In iv ivs -> sp_dir #"deprecated" (iv_dirs iv) = None) ->
-    assoc_b iv_name iv_name iv_equiv_b (map strip_iv ivs) ivs = true.
+  Lemma ivs_equiv_conv : forall ivs, NoDup (map iv_name ivs) ->
+    (forall iv, In iv ivs -> iv_good S iv) ->
+    assoc_b iv_name iv_name iv_equiv_b (map conv_iv ivs) ivs = true.
   Proof.
     intros ivs ND H. apply Forall2_assoc_b.
     - rewrite map_map. auto.
-    - apply Forall2_map_l. intros iv I. split; [reflexivity|]. apply iv_equiv_strip. auto.
+    - apply Forall2_map_l. intros iv I. split; [reflexivity|]. apply iv_equiv_conv. apply (H iv I).
   Qed.
 
   Lemma fields_round : forall t, In t (s_types S) -> fields_wf S (td_fields t) = true ->
@@ -157,7 +148,6 @@ Section Round.
     /\ assoc_b fd_name fd_name fd_equiv_b (map conv_f (td_fields t)) (td_fields t) = true.
   Proof.
     intros t I FW. destruct (fields_wf_parts _ _ FW) as [_ [ND Ff]].
-    destruct (conv_ok_parts S COK) as [_ [_ [NoDep _]]].
     rewrite (gen_fields_user S). 2:{ intros f If. destruct (fd_wf_parts _ _ (Ff f If)). auto. }
     split.
     - apply cmap_map_ok. intros f If. destruct (fd_wf_parts _ _ (Ff f If)) as [_ [R [A D]]].
@@ -168,18 +158,19 @@ Section Round.
       apply Forall2_map_l. intros f If. split; [reflexivity|].
       destruct (fd_wf_parts _ _ (Ff f If)) as [_ [R [A D]]]. destruct (ivs_wf_parts _ _ A) as [NDa Ai].
       unfold fd_equiv_b, conv_f. cbn [fd_type fd_args fd_dirs]. rewrite ty_eqb_refl.
-      rewrite ivs_equiv_strip; auto. 2:{ intros iv Iv. apply NoDep. eapply in_all_input_values_arg; eauto. }
+      rewrite ivs_equiv_conv; auto. 2:{ intros iv Iv. apply (user_iv_good S GOK); auto. eapply in_all_input_values_arg; eauto. }
       rewrite dep_round; auto. apply (user_dirs_good S GOK); auto. eapply in_deprecable_field; eauto.
   Qed.
 
   (* --- types --- *)
   Definition conv_t (t : type_def) : type_def :=
     match td_kind t with
-    | KScalar => blank KScalar (td_name t)
+    | KScalar => {| td_kind := KScalar; td_name := td_name t; td_implements := []; td_fields := []; td_members := [];
+                    td_enum_values := []; td_input_fields := []; td_dirs := specified_dirs (specified_by (td_dirs t)) |}
     | KObject => {| td_kind := KObject; td_name := td_name t; td_implements := td_implements t;
                     td_fields := map conv_f (td_fields t); td_members := []; td_enum_values := [];
                     td_input_fields := []; td_dirs := [] |}
-    | KInterface => {| td_kind := KInterface; td_name := td_name t; td_implements := [];
+    | KInterface => {| td_kind := KInterface; td_name := td_name t; td_implements := td_implements t;
                        td_fields := map conv_f (td_fields t); td_members := []; td_enum_values := [];
                        td_input_fields := []; td_dirs := [] |}
     | KUnion => {| td_kind := KUnion; td_name := td_name t; td_implements := []; td_fields := [];
@@ -190,7 +181,7 @@ Section Round.
                                         (td_enum_values t);
                   td_input_fields := []; td_dirs := [] |}
     | KInputObject => {| td_kind := KInputObject; td_name := td_name t; td_implements := []; td_fields := [];
-                         td_members := []; td_enum_values := []; td_input_fields := map strip_iv (td_input_fields t);
+                         td_members := []; td_enum_values := []; td_input_fields := map conv_iv (td_input_fields t);
                          td_dirs := [] |}
     end.
 
@@ -204,23 +195,39 @@ Section Round.
   Lemma conv_t_name : forall t, td_name (conv_t t) = td_name t.
   Proof. intros. unfold conv_t. destruct (td_kind t); reflexivity. Qed.
 
+  Lemma specified_round : forall t, In t (s_types S) -> scalar_dirs_wf (td_dirs t) = true ->
+    opt_opt_eqb (specified_of (specified_dirs (specified_by (td_dirs t)))) (specified_of (td_dirs t)) = true.
+  Proof.
+    intros t I Wf. destruct (gen_ok_parts S GOK) as [_ [Sp _]]. specialize (Sp t I).
+    unfold specified_by, scalar_dirs_wf, url_of in *. rewrite find_dir_sp. unfold specified_of at 2.
+    destruct (sp_dir #"specifiedBy" (td_dirs t)) as [d|]; [|reflexivity]. rewrite find_arg_sp.
+    destruct (sp_arg #"url" d) as [v|]; try discriminate. destruct v; try discriminate.
+    cbn [str_special] in Sp. cbn [value_content specified_dirs].
+    assert (Orig : str_sem raw block = Some raw).
+    { unfold str_sem. destruct block; auto. rewrite Wf, unescape_id; auto. }
+    rewrite Orig, specified_of_dir. unfold str_sem. destruct (contains_byte 10 raw) eqn:L.
+    - cbn. apply bytes_eqb_refl.
+    - rewrite plain_str_ok, unescape_id; auto. cbn. apply bytes_eqb_refl.
+  Qed.
+
   Lemma type_round : forall t, In t (s_types S) ->
     import_full_type (G1 S t) = COk [conv_t t] /\ td_equiv_b (conv_t t) t = true.
   Proof.
     intros t I. destruct (wf_parts S WF) as [_ [_ [T _]]]. specialize (T t I).
     pose proof (user_name_not_uu _ (td_wf_name _ _ T)) as U.
-    destruct (conv_ok_parts S COK) as [NoImpl [_ [NoDep [NoSpec NoOne]]]].
+    pose proof (conv_ok_parts S COK) as NoOne.
     apply td_wf_cases in T. unfold G1, g1, gen_type, conv_t, import_full_type, td_equiv_b.
     destruct (td_kind t) eqn:K; rewrite ?U;
       cbn [hd it_kind it_name it_fields it_inputs it_interfaces it_enums it_possible it_specified
-           td_kind td_name td_implements td_fields td_members td_enum_values td_input_fields td_dirs blank kind_eqb negb orb andb].
+           td_kind td_name td_implements td_fields td_members td_enum_values td_input_fields td_dirs kind_eqb negb orb andb].
     - destruct T as [T1 [T2 [T3 [T4 [T5 T6]]]]]. rewrite T1, T2, T3, T4, T5. split; [reflexivity|].
-      unfold specified_of. rewrite (NoSpec t I). reflexivity.
+      rewrite specified_round; auto.
     - destruct T as [T1 [T2 [T3 [T4 [T5 T6]]]]]. destruct (fields_round t I T3) as [F1 F2].
       rewrite F1. cbn [cbind]. rewrite import_named_refs; try discriminate. cbn [cbind].
       split; [reflexivity|]. rewrite F2, T4, T5, T6, !same_set_b_refl. reflexivity.
     - destruct T as [T1 [T2 [T3 [T4 [T5 T6]]]]]. destruct (fields_round t I T3) as [F1 F2].
-      rewrite F1. cbn [cbind]. split; [reflexivity|]. rewrite F2, T4, T5, T6, (NoImpl t I K). reflexivity.
+      rewrite F1. cbn [cbind]. rewrite import_named_refs; try discriminate. cbn [cbind].
+      split; [reflexivity|]. rewrite F2, T4, T5, T6, !same_set_b_refl. reflexivity.
     - destruct T as [T1 [T2 [T3 [T4 [T5 [T6 T7]]]]]]. rewrite import_named_refs; try discriminate. cbn [cbind].
       split; [reflexivity|]. rewrite T1, T2, T6, T7, !same_set_b_refl. reflexivity.
     - destruct T as [T1 [T2 [T3 [T4 [T5 T6]]]]]. split.
@@ -234,36 +241,33 @@ Section Round.
     - destruct T as [T1 [T2 [T3 [T4 T5]]]]. destruct (ivs_wf_parts _ _ T5) as [ND Ai].
       rewrite import_inputs_ok. 2:{ intros iv Iv. apply (user_iv_good S GOK); auto. eapply in_all_input_values_input; eauto. }
       cbn [cbind]. split; [reflexivity|]. rewrite T1, T2, T3, T4.
-      rewrite ivs_equiv_strip; auto. 2:{ intros iv Iv. apply NoDep. eapply in_all_input_values_input; eauto. }
+      rewrite ivs_equiv_conv; auto. 2:{ intros iv Iv. apply (user_iv_good S GOK); auto. eapply in_all_input_values_input; eauto. }
       unfold one_of at 1. cbn. rewrite (NoOne t I). reflexivity.
   Qed.
 
   (* --- directives --- *)
   Definition conv_d (d : directive_def) : directive_def :=
-    {| dd_name := dd_name d; dd_args := map strip_iv (dd_args d); dd_locations := import_locations (dd_locations d);
-       dd_repeatable := false |}.
+    {| dd_name := dd_name d; dd_args := map conv_iv (dd_args d); dd_locations := import_locations (dd_locations d);
+       dd_repeatable := dd_repeatable d |}.
 
   Lemma directive_round_gen : forall d, NoDup (map iv_name (dd_args d)) -> (forall iv, In iv (dd_args d) -> iv_good S iv) ->
-    (forall iv, In iv (dd_args d) -> sp_dir #"deprecated" (iv_dirs iv) = None) ->
-    locations_canonical (dd_locations d) = true -> dd_repeatable d = false ->
+    locations_canonical (dd_locations d) = true ->
     import_directive (GD S d) = COk (conv_d d) /\ dd_equiv_b (conv_d d) d = true.
   Proof.
-    intros d ND G NoDep LC NR. unfold import_directive, GD, gd. cbn [id_args id_name id_locations].
+    intros d ND G LC. unfold import_directive, GD, gd. cbn [id_args id_name id_locations id_repeatable].
     rewrite import_inputs_ok; auto. cbn [cbind]. split; [reflexivity|].
-    unfold dd_equiv_b, conv_d. cbn [dd_args dd_locations dd_repeatable]. rewrite ivs_equiv_strip; auto.
+    unfold dd_equiv_b, conv_d. cbn [dd_args dd_locations dd_repeatable]. rewrite ivs_equiv_conv; auto.
     destruct (canonical_locations _ LC) as [E _]. unfold import_locations. rewrite <- E.
-    rewrite same_set_b_refl, NR. reflexivity.
+    rewrite same_set_b_refl, Bool.eqb_reflx. reflexivity.
   Qed.
 
   Lemma user_directive_round : forall d, In d (s_directives S) ->
     import_directive (GD S d) = COk (conv_d d) /\ dd_equiv_b (conv_d d) d = true.
   Proof.
     intros d I. destruct (wf_parts S WF) as [_ [_ [_ [D _]]]]. specialize (D d I).
-    destruct (conv_ok_parts S COK) as [_ [NR [NoDep _]]].
     unfold dd_wf in D. andb_split D. destruct (ivs_wf_parts _ _ D1) as [ND A].
     apply directive_round_gen; auto.
-    - intros iv Iv. apply (user_iv_good S GOK); auto. eapply in_all_input_values_dir; eauto.
-    - intros iv Iv. apply NoDep. eapply in_all_input_values_dir; eauto.
+    intros iv Iv. apply (user_iv_good S GOK); auto. eapply in_all_input_values_dir; eauto.
   Qed.
 
   Lemma base_directive_round : forall d, In d base_public_directives ->
@@ -274,10 +278,9 @@ Section Round.
       [ apply nodup_b_NoDup; reflexivity
       | intros iv Iv; simpl in Iv;
         repeat (destruct Iv as [Iv|Iv]; [subst iv; split; [apply (base_find S GOK); simpl; auto 10|];
-                split; [intros v E; inversion E; reflexivity|]; split; [reflexivity|split; [reflexivity|discriminate]]|]);
+                split; [intros v E; inversion E; reflexivity|]; split; reflexivity|]);
         contradiction
-      | intros iv Iv; simpl in Iv; repeat (destruct Iv as [Iv|Iv]; [subst iv; reflexivity|]); contradiction
-      | reflexivity | reflexivity ] |]).
+      | reflexivity ] |]).
     contradiction.
   Qed.
 
@@ -332,7 +335,7 @@ Section Round.
         * unfold base_scalars. repeat constructor.
     - rewrite <- map_app. apply Forall2_assoc_b.
       + rewrite map_map. cbn [dd_name conv_d]. rewrite map_app.
-        destruct (gen_ok_parts S GOK) as [_ [_ [_ [_ [_ [_ [B _]]]]]]].
+        destruct (gen_ok_parts S GOK) as [_ [_ [_ [_ [_ [B _]]]]]].
         apply NoDup_app_intro; auto.
         * apply nodup_b_NoDup. reflexivity.
         * intros n I1 I2. apply in_map_iff in I1. destruct I1 as [d [E I]]. subst n. eapply B; eauto.
